@@ -326,6 +326,49 @@ def _ranges(fn):
     return [t for _, _, t in sorted(res)]
 
 
+_MUTATORS = ('append', 'extend', 'pop', 'clear', 'remove', 'insert', 'sort', 'reverse', 'update', 'setdefault', 'popitem', 'add', 'discard')
+
+
+def _self_stores(fn):
+    """source text of everything under `fn` that changes the object: assignments / deletions whose target starts with `self.`
+    and calls of mutating container methods on `self.<attr>` (in source order)"""
+    res = []
+    for n in ast.walk(fn):
+        tg = []
+        if isinstance(n, ast.Assign):
+            tg = n.targets
+        elif isinstance(n, (ast.AugAssign, ast.AnnAssign)):
+            tg = [n.target]
+        elif isinstance(n, ast.Delete):
+            tg = n.targets
+        flat = []
+        for t in tg:
+            flat += list(t.elts) if isinstance(t, (ast.Tuple, ast.List)) else [t]
+        if any(ast.unparse(t).startswith('self.') for t in flat):
+            res.append((n.lineno, n.col_offset, ast.unparse(n)))
+        if isinstance(n, ast.Call) and isinstance(n.func, ast.Attribute) and n.func.attr in _MUTATORS \
+                and ast.unparse(n.func.value).startswith('self.'):
+            res.append((n.lineno, n.col_offset, ast.unparse(n)))
+        if isinstance(n, ast.Call) and ast.unparse(n.func) in ('setattr', 'delattr'):
+            res.append((n.lineno, n.col_offset, ast.unparse(n)))
+    return [t for _, _, t in sorted(res)]
+
+
+def _init_assigns(fn):
+    """(`self.a = <expr>` texts of an __init__, those whose value is NOT a bare parameter name or a literal)"""
+    params = {a.arg for a in fn.args.args}
+    texts, odd = [], []
+    for n in sorted((m for m in ast.walk(fn) if isinstance(m, (ast.Assign, ast.AugAssign, ast.AnnAssign))), key=lambda m: (m.lineno, m.col_offset)):
+        t = ast.unparse(n)
+        if not t.startswith('self.'):
+            continue
+        texts.append(t)
+        v = getattr(n, 'value', None)
+        if not (isinstance(n, ast.Assign) and ((isinstance(v, ast.Name) and v.id in params) or isinstance(v, ast.Constant))):
+            odd.append(t)
+    return texts, odd
+
+
 def extract(ctx):
     files = ['cflib/utils/encoding.py', 'cflib/crazyflie/mem/trajectory_memory.py', 'cflib/crazyflie/mem/led_driver_memory.py',
              'cflib/crazyflie/mem/led_timings_driver_memory.py', 'cflib/crazyflie/localization.py']
@@ -412,6 +455,23 @@ def extract(ctx):
     g.strings('segInitValidates', [ast.unparse(n.value) for n in X.find(tm, 'CompressedSegment.__init__').body
                                    if isinstance(n, ast.Expr) and isinstance(n.value, ast.Call)])
 
+    # objects: what the constructors keep and what the serialisers change (repeated use of one object)
+    texts, odd = _init_assigns(X.find(tm, 'CompressedStart.__init__'))
+    g.strings('startInitAssigns', texts)
+    g.strings('startInitDerived', odd)
+    texts, odd = _init_assigns(X.find(tm, 'CompressedSegment.__init__'))
+    g.strings('segInitAssigns', texts)
+    g.strings('segInitDerived', odd)
+    g.strings('startPackStores', _self_stores(X.find(tm, 'CompressedStart.pack')))
+    g.strings('segPackStores', _self_stores(seg) + _self_stores(X.find(tm, 'CompressedSegment._pack_element'))
+              + _self_stores(X.find(tm, 'CompressedSegment._encode_type')) + _self_stores(X.find(tm, 'CompressedSegment._validate'))
+              + sum((_self_stores(X.find(tm, '_CompressedBase.' + m)) for m in ('_encode_spatial', '_encode_spatial_element', '_encode_yaw', '_encode_yaw_element')), []))
+    tw = X.find(tm, 'TrajectoryMemory.write_data')
+    g.strings('trajWriteStores', _self_stores(tw))
+    g.strings('trajWriteLoops', ['for %s in %s: %s' % (ast.unparse(n.target), ast.unparse(n.iter), '; '.join(ast.unparse(b) for b in n.body))
+                                 for n in ast.walk(tw) if isinstance(n, ast.For)])
+    g.strings('trajWriteCalls', [ast.unparse(n) for n in ast.walk(tw) if isinstance(n, ast.Call) and ast.unparse(n.func).endswith('mem_handler.write')])
+
     # ---- LED ring ---------------------------------------------------------------------------------
     g.raw('\n/-! ### cflib/crazyflie/mem/led_driver_memory.py -/\n')
     led = X.find(X.parse('cflib/crazyflie/mem/led_driver_memory.py'), 'LEDDriverMemory.write_data')
@@ -438,6 +498,14 @@ def extract(ctx):
     g.strings('ledRanges', _ranges(led))
     ledcls = X.find(X.parse('cflib/crazyflie/mem/led_driver_memory.py'), 'LEDDriverMemory.__init__')
     g.strings('ledInitRanges', _ranges(ledcls))
+    ledmod = X.parse('cflib/crazyflie/mem/led_driver_memory.py')
+    texts, _ = _init_assigns(X.find(ledmod, 'LED.__init__'))
+    g.strings('ledObjInit', texts)
+    lset = X.find(ledmod, 'LED.set')
+    g.strings('ledSetStores', _self_stores(lset))
+    g.strings('ledSetTests', [ast.unparse(n.test) for n in ast.walk(lset) if isinstance(n, ast.If)])
+    g.strings('ledWriteStores', _self_stores(led))
+    g.strings('ledWriteCalls', [ast.unparse(n) for n in ast.walk(led) if isinstance(n, ast.Call) and ast.unparse(n.func).endswith('mem_handler.write')])
 
     g.raw('\n/-! ### cflib/crazyflie/mem/led_timings_driver_memory.py -/\n')
     lt = X.find(X.parse('cflib/crazyflie/mem/led_timings_driver_memory.py'), 'LEDTimingsDriverMemory.write_data')
@@ -458,6 +526,11 @@ def extract(ctx):
     term = [n for n in ast.walk(lt) if isinstance(n, ast.AugAssign) and n is not ifs[0].body[0]]
     X.expect(len(term) == 1 and isinstance(term[0].value, ast.List), 'LEDTimingsDriverMemory.write_data: terminator not found')
     g.raw('def ledtTerminator : List Int := [' + ', '.join(E(e, {}) for e in term[0].value.elts) + ']')
+    ltmod = X.parse('cflib/crazyflie/mem/led_timings_driver_memory.py')
+    g.strings('ledtWriteStores', _self_stores(lt))
+    g.strings('ledtWriteLoops', [ast.unparse(n.iter) for n in ast.walk(lt) if isinstance(n, ast.For)])
+    g.strings('ledtAddStores', _self_stores(X.find(ltmod, 'LEDTimingsDriverMemory.add')))
+    g.strings('ledtWriteCalls', [ast.unparse(n) for n in ast.walk(lt) if isinstance(n, ast.Call) and ast.unparse(n.func).endswith('mem_handler.write')])
 
     # ---- localization --------------------------------------------------------------------------------
     g.raw('\n/-! ### cflib/crazyflie/localization.py -/\n')
@@ -482,6 +555,8 @@ def extract(ctx):
     g.strings('lhArgs', sc['args'])
     _, lorder = _assigns(lh)
     g.strings('lhAssigns', ['%s = %s' % (t, ast.unparse(v)) for t, v in lorder if t != 'raw_data'])
+    g.strings('incStores', _self_stores(inc) + _self_stores(lh))
+    g.strings('incCalls', [ast.unparse(n) for n in ast.walk(inc) if isinstance(n, ast.Call) and ast.unparse(n.func).startswith('self.') and 'logger' not in ast.unparse(n.func)])
     imports = [ast.unparse(n) for n in loc.body if isinstance(n, ast.ImportFrom) and any(a.name == 'fp16_to_float' for a in n.names)]
     g.strings('lhFp16Import', imports)
     text = g.render()
